@@ -36,7 +36,9 @@ RULE = ("e2e cases: methods (incl. extension methods) x request-targets with per
         "lists with lower-case / absent / end-to-end-named tokens, Accept-Encoding variants) x bodies 0..3000 bytes (thorough: up to 100 KB) sent with "
         "Content-Length / chunked / gzip-labelled x buffered or stream mode in each direction x IP or host-name server x keepHost x compression "
         "minLength {none,0,1,20,100,1000} with bodies at minLength-1/minLength/minLength+1 x Request/ResponseAdaptor body/compress/decompress x backend "
-        "status x backend headers x response framing (Content-Length, chunked, close-delimited) x gzip-labelled responses; hop cases: cloneHeader on "
+        "status x backend headers x response framing (Content-Length, chunked, close-delimited) x gzip-labelled responses; one case in 15 follows a boundary schedule: every body-transforming path (proxy compression, transparent gunzip, "
+        "Request/ResponseAdaptor compress and decompress, pass-through; buffered and stream) with a (decoded) body of exactly k x the gzip reader's round "
+        "(8 pages), k x {2048, 4096, 8 pages, 16 pages} and one byte off; the gzip oracle is compress/gzip in one shot, not easegress' own reader; hop cases: cloneHeader on "
         "random header maps; addr cases: Server.checkAddrPattern on URL shapes (IPv4/IPv6 literals, ports, brackets, names); non-trivial = the "
         "request-target parses; classes add: hop-by-hop header present(+1) escaped target(+2) compression configured(+4) adaptor(+8) stream mode(+16) "
         "host-name server(+32) encoded backend response(+64); distinct = distinct (group, input) hashes among non-trivial cases")
